@@ -59,7 +59,7 @@ void r_fe_chunking(void)
 #endif
     for (int i = 0; i < NS; i++) { si[i] = (int16)(i + 1); sf[i] = (float32)(i + 1) / 32768.0f; }
     fe.frame_size = FS; fe.frame_shift = SH; fe.overflow_samps = ovf; fe.num_overflow_samps = 0; fe.swap = 0;
-    int total = 0, calls = 0;
+    int total = 0, calls = 0, last_cut = 0;
     for (int c = 0; c < NCHUNK; c++) {
         SSW_ASSUME(0 <= in_chunk[c] && total + in_chunk[c] <= NS);
         float32 *pf = sf + total; int16 *pi = si + total;
@@ -72,6 +72,7 @@ void r_fe_chunking(void)
             int lim = in_lim[calls++];
             int r = in_float ? fe_process_float32(&fe, &pf, &n, ceps, lim) : fe_process_int16(&fe, &pi, &n, ceps, lim);
             SSW_ASSERT(r >= 0 && r <= lim, "no more frames than allowed are written");
+            last_cut = (r == lim);      /* this call stopped at its output limit */
             SSW_ASSERT(in_float ? (pf + n == sf + total) : (pi + n == si + total), "every sample of the chunk is either consumed or still pending");
         }
         SSW_ASSERT(n == 0, "with repeated calls the whole chunk is consumed");
@@ -89,7 +90,7 @@ void r_fe_chunking(void)
         /* KNOWN FINDING (known_findings.txt): the stream ends exactly on a window boundary (total == size + k*shift) after a
          * call that was cut short by its output limit: the pending FULL window is emitted by fe_end in place of the
          * trailing partial frame, one frame fewer than the one-shot schedule.  Any other mismatch is a new violation. */
-        int known_edge = total >= FS && (total - FS) % SH == 0 && g_nfr == expect - 1 && nproc == nfull - 1;
+        int known_edge = total >= FS && (total - FS) % SH == 0 && g_nfr == expect - 1 && nproc == nfull - 1 && last_cut;
         SSW_ASSERT(known_edge, "the number of frames depends only on the number of samples");
         SSW_ASSERT(!known_edge, "KNOWN-EDGE stream ends on a window boundary after an output-limited call: fe_end emits the pending full window instead of the trailing partial frame (one frame fewer)");
     }
